@@ -560,6 +560,13 @@ func (fr *Frame) evalCall(e *Expr, env *Env, st *State, old *State) *Val {
 	case "preexisting":
 		x := arg(0)
 		return term(fmt.Sprintf("(< (birth %s) %s)", fr.refOf(x), u.entryNow), B)
+	case "rtag":
+		// the type identity held by a reflect.Type value
+		x := arg(0)
+		if u.srt(x) != "Iface" {
+			evalFail("rtag needs a reflect.Type value")
+		}
+		return sv(u.tagOfRtype(x.T), "TypeTag")
 	case "refof":
 		return sv(fr.refOf(arg(0)), "Ref")
 	case "any":
